@@ -282,7 +282,7 @@ def nontrivial(case, labels):
 
 SUBCHECKS = [
     SubCheck('fof_vs_unionfind', body, strategy=case_strategy, classify=classify, nontrivial=nontrivial,
-             quick=7000, thorough=400000, shards=(16, 16),
+             quick=7000, thorough=200000, shards=(16, 16),
              doc='partition == brute-force friends-of-friends components (tolerance band) + numbering, mult, first, next'),
     SubCheck('lattice_subsets', body, kind='exhaustive', cases=lattice_cases, classify=classify, nontrivial=nontrivial,
              shards=(16, 16), floor=0.0,
